@@ -24,7 +24,7 @@ CHECKS = {
     'src/arith.rs': ['C06', 'C07', 'C12'], 'src/u256.rs': ['C06', 'C07', 'C13'], 'src/u512.rs': ['C13', 'C07', 'C06'],
     'src/fields.rs': ['C06', 'C14', 'C17'], 'src/fields/fp.rs': ['C06', 'C07', 'C13', 'C14'], 'src/fields/fq2.rs': ['C12', 'C14', 'C07'],
     'src/fields/fq4.rs': ['C17', 'C11'], 'src/fields/fq12.rs': ['C17', 'C11', 'C02'], 'src/groups.rs': ['C04', 'C05', 'C15', 'C16', 'C09'],
-    'src/lib.rs': ['C08', 'C10', 'C13', 'C09', 'C15'], 'src/pairings.rs': ['C02', 'C03', 'C01', 'C17'],
+    'src/lib.rs': ['C08', 'C10', 'C13', 'C09', 'C15', 'C11'], 'src/pairings.rs': ['C02', 'C03', 'C01', 'C17'],
 }
 ALL = ['C%02d' % i for i in range(1, 19)]
 
@@ -205,7 +205,10 @@ def run(ids):
         try:
             subprocess.run(['git', '-C', REPO, 'apply', AUTO + '/%s.patch' % mid], check=True)
             first = CHECKS[meta['file']]
-            for c in first + [c for c in ALL if c not in first]:
+            rest = [c for c in ALL if c not in first]
+            if os.environ.get('MUT_MAPPED_ONLY'):
+                rest = [c for c in ('C07', 'C06', 'C18') if c not in first]      # quick pass: mapped checks + the broadest three
+            for c in first + rest:
                 p = subprocess.run(['./check', c, '--tier', 'quick'], cwd=V, stdout=subprocess.PIPE, stderr=subprocess.STDOUT, text=True)
                 v = [l.strip() for l in p.stdout.splitlines() if 'violation:' in l][:1]
                 res[c] = {'rc': p.returncode, 'first': v[0][:240] if v else ''}
